@@ -2607,7 +2607,9 @@ class AggregateBase(UnitsManaged, Saveable, OpenSystem):
             for i in range(start, dim):
                 ens[i-start] = numpy.real(HH[i,i] - subtract[i-start])
 
-            ne = numpy.exp(-ens/kBT)
+            # energies are taken relative to the lowest one so that the
+            # largest Boltzmann factor is 1 and the sum can never underflow
+            ne = numpy.exp(-(ens-numpy.amin(ens))/kBT)
             sne = numpy.sum(ne)
             rho0_diag = ne/sne
             rho0[start:,start:] = numpy.diag(rho0_diag)
